@@ -56,6 +56,8 @@ type Outcome struct {
 	Invoke  uint64      `json:"invoke"`
 	Return  uint64      `json:"return"`
 	Steps   uint64      `json:"steps"`
+	raw     interface{} // the value exactly as returned (may alias documents, literals, library memory)
+	late    string      // set when the value read later differs from what was returned
 }
 
 type Violation struct {
@@ -167,7 +169,19 @@ func execOp(op Op, e *env) (out Outcome) {
 	}
 	out.Kind = "value"
 	out.Val = deepCopy(v) // the caller reads its result at once
+	out.raw = v
 	return
+}
+
+// recheck re-reads, later, the values this client was given earlier: a value handed to
+// one caller must not be overwritten by somebody else's (or this caller's next) call.
+func recheck(outs []Outcome, upto int, when string) {
+	for i := 0; i < upto; i++ {
+		o := &outs[i]
+		if o.Kind == "value" && o.late == "" && !equalVal(o.raw, o.Val) {
+			o.late = "value was " + render(o.Val) + " when returned and reads " + render(o.raw) + " " + when
+		}
+	}
 }
 
 func stepsNow() uint64 {
@@ -429,6 +443,7 @@ func runSched(w *Workload) *RunReport {
 			for oi, op := range ops {
 				rep.Outcomes[ci][oi] = execOp(op, e)
 				simrt.Yield(-2)
+				recheck(rep.Outcomes[ci], oi+1, "after other clients ran")
 			}
 		})
 	}
@@ -472,6 +487,9 @@ func runSched(w *Workload) *RunReport {
 	}
 
 	// 4. oracles
+	for ci := range rep.Outcomes {
+		recheck(rep.Outcomes[ci], len(rep.Outcomes[ci]), "after all clients finished")
+	}
 	for ci := range rep.Outcomes {
 		for oi := range rep.Outcomes[ci] {
 			switch rep.Outcomes[ci][oi].Kind {
@@ -531,6 +549,11 @@ func runSched(w *Workload) *RunReport {
 		for ci := range rep.Outcomes {
 			for oi := range rep.Outcomes[ci] {
 				got, ref := &rep.Outcomes[ci][oi], &rep.Refs[ci][oi]
+				if got.late != "" && prop == "C12" {
+					op := w.Clients[ci][oi]
+					rep.Violations = append(rep.Violations, Violation{Prop: "C12", Class: "result-overwritten", Sig: op.Kind,
+						Detail: fmt.Sprintf("client %d op %d %s(%q): %s", ci, oi, op.Kind, w.Exprs[op.Expr], got.late)})
+				}
 				if sameOutcome(got, ref) {
 					continue
 				}
